@@ -10,7 +10,10 @@ import Nstd.Generated.Sha256Tables
   Hand written here: the remaining control flow, mirroring the C++ code line by line
   (`WriteByteBlock`, the byte loop of `update`,
   the padding loop of `finalize` with its wrap-around block, the length loop, the digest
-  loop, `hmac`).  Loop counters that are plain array positions are `Nat`; array writes go
+  loop, `hmac`).  The bodies of all these functions are ALSO translated from the current sources on every run
+  (`Nstd/Generated/Sha256Body.lean`) and proved equal to the functions of this file (`generated_bodies_are_the_model`,
+  `hmac_translated_eq_rfc2104` in Props.lean); the driver executes the translated ones, the functions here serve as the
+  readable statement of what the code does and as fall-back when a body leaves the translated C subset.  Loop counters that are plain array positions are `Nat`; array writes go
   through the checked `wr` (an out-of-range write destroys the array instead of being dropped), array reads
   are recorded in the ghost flag `ok` (`inb`: the index was inside the array); `count` is the
   `uint64` of the code (the `count << 3` wrap is part of the model).
